@@ -66,6 +66,39 @@ pub fn realistic_payload_with(codec: u8, size: usize, sync: bool, tag: u64, inba
         let _ = body;
         return out;
     }
+    // an Annex B framed buffer (start codes, 3- and 4-byte) handed to the fragmented muxer: it stores what it is given
+    if codec % 4 <= 1 && size % 16 == 10 {
+        let mut raw = Vec::new();
+        raw.extend_from_slice(&[0, 0, 1]);
+        raw.extend_from_slice(if codec % 4 == 0 { &[0x09, 0xf0][..] } else { &[0x46, 0x01, 0x50][..] });
+        raw.extend_from_slice(&[0, 0, 0, 1]);
+        if codec % 4 == 0 {
+            raw.push(if sync { 0x65 } else { 0x41 });
+        } else {
+            raw.extend_from_slice(&[if sync { 0x26 } else { 0x02 }, 0x01]);
+        }
+        raw.extend(body.iter().map(|b| b | 0x10));
+        return raw;
+    }
+    // nothing but an end-of-sequence / end-of-stream marker (what a drained hardware encoder delivers last)
+    if codec % 4 <= 1 && size % 16 == 11 {
+        if codec % 4 == 0 {
+            nal(&[if tag & 1 == 0 { 0x0a } else { 0x0b }], &[]);
+        } else {
+            nal(&[if tag & 1 == 0 { 0x48 } else { 0x4a }, 0x01], &[]);
+        }
+        return out;
+    }
+    // VP9: the frame header says key frame / inter frame independently of the sync flag the caller passes
+    if codec % 4 == 3 && size % 8 == 5 {
+        if !sync {
+            out.extend_from_slice(&[0x82, 0x49, 0x83, 0x42, 0x00, 0x27, 0xf0, 0x1d, 0xf6]);
+        } else {
+            out.push(0x86);
+        }
+        out.extend_from_slice(&body);
+        return out;
+    }
     match codec % 4 {
         0 => {
             if sync {
@@ -130,7 +163,24 @@ pub fn fcfg(c: &FragCase) -> FCfg {
         width: c.width.max(1) as u32,
         height: c.height.max(1) as u32,
         // one configuration in seven is the library's own example parameter sets (default_avc_config)
-        sps: if c.codec % 4 == 0 && c.pset_len.0 % 7 == 3 { muxide::codec::h264::default_avc_config().sps } else { filler(c.pset_len.0 as usize, 0x51, 3) },
+        sps: if c.codec % 4 == 0 && c.pset_len.0 % 7 == 3 {
+            muxide::codec::h264::default_avc_config().sps
+        } else if c.codec % 4 == 0 && c.pset_len.0 % 7 == 5 {
+            // real-world SPS openings: constrained baseline (42 e0 1f / 42 c0 1e), main, high, high 10, high 4:2:2, high 4:4:4
+            const REAL: [&[u8]; 8] = [
+                &[0x67, 0x42, 0xe0, 0x1f, 0xda, 0x01, 0x40, 0x16, 0xe8, 0x40],
+                &[0x67, 0x42, 0xc0, 0x1e, 0xd9, 0x00, 0xa0, 0x47, 0xfe, 0x88],
+                &[0x67, 0x4d, 0x40, 0x1f, 0xec, 0xa0, 0x28, 0x02, 0xdd, 0x80],
+                &[0x67, 0x64, 0x00, 0x28, 0xac, 0xd9, 0x40, 0x78, 0x02, 0x27],
+                &[0x67, 0x6e, 0x00, 0x28, 0xac, 0xd9, 0x40, 0x78, 0x02, 0x27],
+                &[0x67, 0x7a, 0x00, 0x1f, 0xac, 0xd9, 0x40, 0x50, 0x05, 0xbb],
+                &[0x67, 0xf4, 0x00, 0x1f, 0x91, 0x9b, 0x28, 0x0a, 0x00, 0xb7],
+                &[0x67, 0x2c, 0x00, 0x1f, 0x91, 0x9b, 0x28, 0x0a, 0x00, 0xb7],
+            ];
+            REAL[(c.pset_len.0 as usize / 7) % REAL.len()].to_vec()
+        } else {
+            filler(c.pset_len.0 as usize, 0x51, 3)
+        },
         pps: if c.codec % 4 == 0 && c.pset_len.0 % 7 == 3 { muxide::codec::h264::default_avc_config().pps } else { filler(c.pset_len.1 as usize, 0x52, 3) },
         vps: filler(c.pset_len.2 as usize, 0x53, 3),
         // a third of the AV1 configurations hand over what an encoder's first temporal unit starts with: a temporal delimiter
@@ -402,7 +452,7 @@ pub fn fgene_strategy() -> impl Strategy<Value = FGene> {
             prop_oneof![4 => Just(3000u32), 2 => Just(0u32), 3 => 0u32..20000, 1 => 0u32..400_000_000, 1 => (1u32 << 31) - 2..(1u32 << 31), 2 => Just(3754u32), 1 => Just(3753u32), 1 => Just(1501u32), 1 => Just(1502u32)],
             // composition offsets: none, ordinary reordering, up to +-2^30, and (rarely) beyond 32 bits: presentation and decode
             // clocks from different sources (acceptance depends on the decode time only)
-            prop_oneof![30 => Just(0i64), 20 => 0i64..20000, 20 => -20000i64..0, 10 => any::<i32>().prop_map(|v| (v / 2) as i64), 1 => (1i64 << 31)..(1i64 << 34), 1 => -(1i64 << 34)..-(1i64 << 31)],
+            prop_oneof![30 => Just(0i64), 20 => 0i64..20000, 20 => -20000i64..0, 10 => any::<i32>().prop_map(|v| (v / 2) as i64), 1 => (1i64 << 31)..(1i64 << 34), 1 => -(1i64 << 34)..-(1i64 << 31), 2 => proptest::sample::select(vec![i32::MIN as i64, i32::MIN as i64 + 1, i32::MAX as i64, i32::MAX as i64 - 1, i32::MIN as i64 - 1, i32::MAX as i64 + 1, -(1i64 << 32), 1i64 << 32])],
             prop_oneof![2 => Just(0u32), 12 => 1u32..200, 4 => 200u32..2001, 1 => 60_000u32..70_000],
             any::<bool>(),
             proptest::option::weighted(0.15, prop_oneof![2 => Just(0u32), 3 => 1u32..5000, 1 => any::<u32>()]),
